@@ -22,6 +22,12 @@ package producer
 // impl line: "ec=<MQErrorCount> recv=<runs>" where runs lists, per sink connection in accept
 // order, the maximal runs of consecutive message indices received, e.g. "c0[0-2] c1[4-9]";
 // for scripts whose outcome depends on kernel timing (faults on tcp/udp) the line is "nd".
+//
+// With the first word `producerx` the impl line carries the outcome script the producer actually
+// experienced, reconstructed per message from its own log lines and from what the sink received:
+// "w=<per write: o delivered, l lost (write returned nil, nothing arrived), p broken pipe, x other
+// error> d=<per redial: k ok, f failed> ec=… recv=…" — the check feeds that script to the Lean model
+// and compares its prediction with the ec / recv observed here.
 
 import (
 	"bufio"
@@ -209,6 +215,18 @@ func (l *verifLockedBuf) Write(p []byte) (int, error) {
 	return l.b.Write(p)
 }
 
+func (l *verifLockedBuf) len() int {
+	l.mu.Lock()
+	defer l.mu.Unlock()
+	return l.b.Len()
+}
+
+func (l *verifLockedBuf) since(off int) string {
+	l.mu.Lock()
+	defer l.mu.Unlock()
+	return string(l.b.Bytes()[off:])
+}
+
 func (l *verifLockedBuf) count(sub string) int {
 	l.mu.Lock()
 	defer l.mu.Unlock()
@@ -311,7 +329,7 @@ func verifShort(b []byte) string {
 // verifRawSocketCase runs one case and returns (impl line, verdict)
 func verifRawSocketCase(dir string, caseNo int, line string) (string, string) {
 	f := strings.Fields(line)
-	if len(f) != 6 || f[0] != "producer" {
+	if len(f) != 6 || (f[0] != "producer" && f[0] != "producerx") {
 		return "bad-op", "fail:bad case line"
 	}
 	proto := f[1]
@@ -388,7 +406,16 @@ func verifRawSocketCase(dir string, caseNo int, line string) (string, string) {
 			time.Sleep(50 * time.Microsecond)
 		}
 	}
-	perMessage := len(events) > 0 || proto == "udp"
+	experienced := f[0] == "producerx"
+	perMessage := len(events) > 0 || proto == "udp" || experienced
+	// per message, from the producer's own log: outcomes of its failed writes, of its redials, and
+	// whether it gave the message up (otherwise its last write returned nil)
+	type msgLog struct {
+		werr   string
+		dials  string
+		gaveUp bool
+	}
+	mlog := make([]msgLog, n)
 	lastFault := -1
 	for k := 0; k < n; k++ {
 		for _, e := range events {
@@ -413,9 +440,9 @@ func verifRawSocketCase(dir string, caseNo int, line string) (string, string) {
 				}
 			}
 		}
-		got0, gu0 := 0, 0
+		got0, gu0, log0 := 0, 0, 0
 		if perMessage {
-			got0, gu0 = sink.received(), lbuf.count(giveUpLine)
+			got0, gu0, log0 = sink.received(), lbuf.count(giveUpLine), lbuf.len()
 		}
 		m := append([]byte{}, msgs[k]...)
 		select {
@@ -425,6 +452,25 @@ func verifRawSocketCase(dir string, caseNo int, line string) (string, string) {
 		}
 		if perMessage {
 			awaitProcessed(got0, gu0, len(msgs[k])+1)
+		}
+		if experienced {
+			for _, l := range strings.Split(lbuf.since(log0), "\n") {
+				switch {
+				case strings.HasPrefix(l, "retrying after error:"), strings.HasPrefix(l, giveUpLine):
+					if strings.HasSuffix(l, "broken pipe") {
+						mlog[k].werr += "p"
+					} else {
+						mlog[k].werr += "x"
+					}
+					if strings.HasPrefix(l, giveUpLine) {
+						mlog[k].gaveUp = true
+					}
+				case strings.HasPrefix(l, "Successfully reconnected"):
+					mlog[k].dials += "k"
+				case strings.HasPrefix(l, "Error when attempting to fix the broken pipe"):
+					mlog[k].dials += "f"
+				}
+			}
 		}
 	}
 	close(ch)
@@ -553,6 +599,27 @@ func verifRawSocketCase(dir string, caseNo int, line string) (string, string) {
 	logged := lbuf.count("retrying after error:") + lbuf.count("message failed after the configured retry limit:")
 	if logged != errs {
 		return impl, fmt.Sprintf("fail:errcount MQErrorCount=%d but %d failed writes were logged", errs, logged)
+	}
+	if experienced {
+		w, d := "", ""
+		for k := 0; k < n; k++ {
+			w += mlog[k].werr
+			d += mlog[k].dials
+			if !mlog[k].gaveUp {
+				if delivered[k] {
+					w += "o"
+				} else {
+					w += "l"
+				}
+			}
+		}
+		if w == "" {
+			w = "-"
+		}
+		if d == "" {
+			d = "-"
+		}
+		return fmt.Sprintf("w=%s d=%s %s", w, d, impl), "ok"
 	}
 	if !deterministic {
 		return "nd", "ok"
